@@ -1,23 +1,64 @@
 // C05 — every dial request completes exactly once; dials are deduplicated and capped.
 //
 // Lock-level simulation of a REAL dialing swarm D (dial_sync, dial_worker, limiter, swarm_dial,
-// dial_ranker, back-off; real TCP transport + upgrader + insecure|noise + yamux on simnet) against
-// target peers whose reachability is scripted PER ADDRESS: TCP addresses are served by real
-// simhost nodes (succeed), refused, black-holed, accepted-and-never-answered, reset/stalled during
-// the handshake, answered by an honest other peer, or dialed by a lying transport; QUIC-v1,
-// WebTransport, WebSocket and relayed addresses go to scripted stub transports that fail after a
-// drawn virtual delay or hang until their context ends; /dns4 names go through a scripted
-// resolver. 1-5 caller tasks per round call DialPeer at drawn virtual instants with independent
-// deadlines / cancel times / dial-peer timeouts and flags; caps (per-peer, FD) are drawn per run;
-// a second round inherits the back-off state of the first. Oracles run over the stamped history
-// (transport Dial records + caller returns), see the "oracles" section below.
+// dial_ranker, back-off; real TCP transport + upgrader + insecure|noise + yamux on simnet; D is
+// built like a simhost node but its TCP transport sits behind a recording wrapper, world_test.go)
+// against two target peers whose reachability is scripted PER ADDRESS: TCP addresses are served by
+// real simhost nodes (succeed), refused, black-holed, accepted-and-never-answered, reset / EOF at
+// the k-th I/O call of either end, answered by an honest other peer, or dialed by a lying
+// transport (returns a connection authenticated as another peer); QUIC-v1, WebTransport,
+// WebSocket and relayed addresses go to scripted stub transports that fail after a drawn virtual
+// delay or hang until their context ends; /dns4 names go through a scripted resolver (fails,
+// resolves to 1-2 addresses or to a duplicate, optionally slow / deaf to cancellation / slow on
+// the first lookup only). 1-5 caller tasks per round call DialPeer at drawn virtual instants with
+// independent deadlines / cancel instants / dial-peer timeouts and force-direct /
+// simultaneous-connect / allow-limited flags, a quarter of them retrying at the instant of a
+// failure; per-peer cap 1-8 and FD cap unset|1-4 are drawn per run; a second round inherits the
+// back-off state of the first; afterwards residue audit and token probes.
+//
+// Oracles over the stamped history (transport Dial records + caller returns):
+//
+//	(1)  every caller returns (caller-never-returned, deadlock), never with neither connection nor
+//	     error (empty-result), no later than min(own limit, dial-peer timeout) + 1 s
+//	     (returned-after-deadline)
+//	(2)  success => RemotePeer is the dialed peer, not over an address served by another peer
+//	     (connection-to-wrong-peer); direct when force-direct (force-direct-got-relayed);
+//	(2b) a connection obtained over an address that never failed before releases every caller
+//	     attached at that instant within resolution slack + 1 s
+//	     (connection-obtained-but-caller-kept-waiting)
+//	(3)  failure with the own context alive and the dial-peer timeout not reached => *swarm.DialError
+//	     (error-not-dialerror); exactness stratum: every eligible address has a finished dial inside
+//	     the caller's session or a back-off refusal named in the DialError
+//	     (eligible-address-not-attempted/<kind>), and a back-off refusal needs an earlier failed dial
+//	     (backoff-without-failure)
+//	(3b) all-fail stratum: the DialError arrives within ranking delays + resolution + script
+//	     durations that can be ahead of the caller (all-scripts-fail-but-no-dial-error-in-time)
+//	(3c) once every eligible address has a failed dial of the caller's live generation the answer is
+//	     due (all-addresses-failed-but-caller-kept-waiting)
+//	(4)  at most one hand-over of an address to a transport per generation
+//	     (address-dialed-twice-in-generation/<kind>); only known addresses of the asked peer, on the
+//	     right transport (dialed-unknown-address, dialed-unknown-peer, wrong-transport)
+//	(5)  at every Dial start stamp: in-flight Dials per peer <= per-peer cap, FD-consuming (TCP, WS)
+//	     in-flight Dials <= FD cap (per-peer-cap-exceeded, fd-cap-exceeded)
+//	(6)  a cancelled caller returns within 1 s (cancelled-caller-not-released); a caller whose context
+//	     is alive is never told that an address dial was cancelled, or timed out before the smallest
+//	     dial timeout had passed (shared-attempt-cancelled)
+//	(7)  when the last caller of a round has returned every running Dial has a dead context
+//	     (dial-not-cancelled-after-last-caller); 3 virtual minutes later no Dial is running
+//	     (dial-still-running) and the goroutine multiset equals the baseline (goroutine-left/dial|other);
+//	     a fresh DialPeer of cap hanging QUIC addresses per peer has cap dials in flight 2 s later
+//	     (token-leaked/per-peer), fdCap black-holed TCP addresses likewise (token-leaked/fd);
+//	     nothing but simulator tasks after every node was closed (residue-after-close); panic.
 //
 // Strata (drawn first): exactness (address sets avoid every documented dial filter, so
 // eligibility = "has a transport and not in back-off") vs filters (unspecified, link-local, own
-// listen address, same-2-tuple WebSocket/WebTransport: only the weaker claims); all-fail (every
-// script fails: bounded liveness is asserted); stalls (the scheduler lets virtual time pass while
-// tasks are runnable: every oracle that reasons with virtual time is switched off); insecure vs
-// noise; link latency.
+// listen address, same-2-tuple WebSocket/WebTransport: only the weaker claims, (3) without
+// eligibility); all-fail (every script fails: (3b)); slow worker (1/8: a name whose first lookup
+// takes 1 s and ignores cancellation, two hanging addresses, cap 1-2, first caller gives up early,
+// another dials within the second — a worker outliving its callers next to its successor);
+// stalls (1/6 of insecure runs: the scheduler lets virtual time pass while tasks are runnable;
+// every oracle that reasons with virtual time — (1) bound, (2b), (3b), (3c), (4), (6) timing, token
+// probes — is switched off there); insecure vs noise; link latency.
 //
 // Weaker readings taken (guide rule 6):
 //   - "once all callers have returned no attempt, token or worker remains" is read over ALL callers
@@ -25,13 +66,50 @@
 //     holder (possibly of another peer) finishes.
 //   - a generation ("while any caller is waiting") is recognised from the outside only when no
 //     caller of the peer returned at a virtual instant within the closed interval between two
-//     dials of one address (exact in runs without stalls, where a runnable task never lets time pass).
+//     dials of one address (exact in runs without stalls, where a runnable task never lets time
+//     pass); dials started with an already cancelled shared context belong to no live generation.
 //   - a back-off refusal is accepted as such when the DialError names the address with
 //     ErrDialBackoff and an earlier failed dial of that address exists.
 //   - a context error is accepted whenever the caller's context had ended when DialPeer returned.
+//   - (2b) is not asserted for addresses that failed or were refused earlier (see checkSharedSuccess).
 //
-// Sensitivity (each mutation applied alone to a private copy of the instrumented overlay; class
-// that caught it): see the block at the end of this file.
+// Not drawn, and why: Stall faults in the middle of a Noise handshake, and scheduler stalls in Noise
+// runs (Noise sets the read deadline to the instant of the context deadline; the reader woken by
+// simnet's deadline timer reaches its `respCh <- runHandshake()` send without a scheduling point
+// and races the context's timer goroutine for real: the run stops being reproducible).
+//
+// Genuine defects found (both repaired in /repo, the classes stay armed):
+//   - fd-cap-exceeded: limiter.freeFDToken handed a freed FD token out twice when it skipped a
+//     cancelled waiter whose freePeerToken admitted a job from the per-peer wait list (ebe4161);
+//     history: fd-cap-exceeded.replay.json (decoded trace inside; its tape predates later generator changes)
+//   - all-scripts-fail-but-no-dial-error-in-time: an exiting dial worker's clearAllPeerDials wiped the
+//     jobs its successor had queued on the per-peer wait list; they were never dialed, the caller
+//     waited for its deadline (cb59e91); history: waitlist-wiped.replay.json (decoded trace inside)
+//
+// Sensitivity — each mutation applied alone to a private copy of the instrumented overlay, 8 workers,
+// 30-40 s; all detected:
+//
+//	m1a dial_sync: callers joining an existing activeDial are not counted (released under a waiter)
+//	                                   -> panic (send on closed channel), (3b), (3c)
+//	m1b dial_sync: activeDial never released (refCnt < 0)
+//	                                   -> dial-not-cancelled-after-last-caller, goroutine-left/dial,
+//	                                      eligible-address-not-attempted/*
+//	m2  dial_worker.dispatchError does not answer the last pending request -> (3b), (3c)
+//	m3  dial_worker: a joining request re-dials an address that is already tracked
+//	                                   -> address-dialed-twice-in-generation/*
+//	m4a limiter.freeFDToken: cancelled waiter skipped without freePeerToken -> token-leaked/per-peer
+//	m4b limiter.freePeerToken: token taken before the cancelled check      -> token-leaked/per-peer, (3b)
+//	m5  dial_sync: the worker uses the first caller's context -> shared-attempt-cancelled, (3b), (3c)
+//	m6  limiter: per-peer limit check off by one (>)           -> per-peer-cap-exceeded
+//	m7  swarm_dial.dialAddr does not check the remote peer id  -> error-not-dialerror ("unexpected peer")
+//	m8  limiter: FD limit check off by one (>)                 -> fd-cap-exceeded
+//	m9  limiter.freeFDToken without the re-check (= the defect repaired by ebe4161) -> fd-cap-exceeded
+//	m10 dial_sync: the waiting caller does not watch its context
+//	                                   -> cancelled-caller-not-released, returned-after-deadline
+//	m11 limiter.executeDial without the per-dial timeout       -> (3b)
+//	m12 dial_worker: a successful dial answers only one pending request
+//	                                   -> connection-obtained-but-caller-kept-waiting
+//	m13 limiter.clearAllPeerDials drops live jobs too (= the defect repaired by cb59e91) -> (3b)
 package c05
 
 import (
@@ -604,12 +682,6 @@ func run(t *testing.T, tape *simrt.Tape) *common.Outcome {
 	})
 	o.Sched = res
 	o.Virtual = res.Virtual
-	if f := os.Getenv("C05_DUMP"); f != "" {
-		if fh, err := os.OpenFile(f, os.O_APPEND|os.O_CREATE|os.O_WRONLY, 0o644); err == nil {
-			fmt.Fprintf(fh, "==== run\n%s\n", strings.Join(res.Trace, "\n"))
-			fh.Close()
-		}
-	}
 	if res.Panic != "" {
 		o.Violate("C05/panic", "%s", res.Panic)
 		return o
@@ -646,13 +718,6 @@ func run(t *testing.T, tape *simrt.Tape) *common.Outcome {
 		o.Logf("%s p%d inv=%d@%v ret=%d@%v %s ctx=%v%s", c.name(), c.peer, c.inv, c.invAt, c.ret, c.retAt, c.outcome(), c.ctxErr, extra)
 		if c.returned && !c.ok && c.err != nil && !c.probe {
 			o.Logf("     err: %s", strings.ReplaceAll(c.err.Error(), "\n", " | "))
-		}
-	}
-
-	if f := os.Getenv("C05_DUMP"); f != "" {
-		if fh, err := os.OpenFile(f+".trace", os.O_APPEND|os.O_CREATE|os.O_WRONLY, 0o644); err == nil {
-			fmt.Fprintf(fh, "==== run\n%s\n", strings.Join(o.Trace, "\n"))
-			fh.Close()
 		}
 	}
 
